@@ -363,7 +363,9 @@ void __assert_fail(const char *expr, const char *file, unsigned int line, const 
   (void)func;
   const char *b = strrchr(file, '/'); b = b ? b + 1 : file;
   if (g_in_try) {
-    snprintf(mc_fault, sizeof(mc_fault), "assert:%s:%u:%s", b, line, expr);
+    /* no line number in the key: it must stay stable when unrelated lines move */
+    (void)line;
+    snprintf(mc_fault, sizeof(mc_fault), "assert:%s:%s", b, expr);
     abandon();
   }
   fprintf(stderr, "assertion failed outside a protected block: %s:%u: %s\n", b, line, expr);
@@ -399,7 +401,8 @@ void __ubsan_on_report(void)
   __ubsan_get_current_report_data(&kind, &msg, &file, &line, &col, &addr);
   if (!mc_san[0]) {
     const char *b = file ? strrchr(file, '/') : NULL; b = b ? b + 1 : (file ? file : "?");
-    snprintf(mc_san, sizeof(mc_san), "ubsan:%s:%s:%u", kind ? kind : "?", b, line);
+    (void)line;
+    snprintf(mc_san, sizeof(mc_san), "ubsan:%s:%s", kind ? kind : "?", b);
   }
 }
 int mc_leak_check(void)
